@@ -492,7 +492,7 @@ EXPECTED_PROBES = {
     "C11": ["shadow-bootstrap", "restart-bootstrap", "crash-inside-insertion", "store-point"],
     "C12": ["ff-refused", "ff-accepted", "ff-attempt-on-previously-adopted-pair", "ff-attempt:sigs-below-threshold-plus-strangers"],
     "C13": ["fastforward-ok", "re-fast-forward", "c13-ff-history-checked"],
-    "C14": ["ff-attempt:forged-validator-set"],
+    "C14": ["ff-attempt:forged-validator-set", "ff-forged-set-offered-again"],
     "C15": ["c15-wire-roundtrip", "c15-block-json", "c15-frame-json", "c15-db-events-reloaded", "c15-frame-handover"],
     "C16": ["c16-ops-applied", "c16-reopens", "c16-restart-after-kill"],
     "C17": ["c17-runtime-suspend", "auto-suspended", "c17-suspended-sync-checked", "c17-leave-then-restart"],
